@@ -11,6 +11,8 @@ import CG.Driver.HEq
 import CG.Driver.HIdent
 import CG.Driver.HCache
 import CG.Driver.HTs
+import CG.Driver.HLag
+import CG.Driver.HNx
 
 /-- stateless handlers: first token of a line selects the handler -/
 def handlers : List (String × (List String → String)) := [
@@ -27,6 +29,8 @@ def handlers : List (String × (List String → String)) := [
   ("ident", CG.Driver.Ident.handle),
   ("cache", CG.Driver.CacheH.handle),
   ("ts", CG.Driver.TS.handle),
+  ("lag", CG.Driver.Lag.handle),
+  ("nx", CG.Driver.Nx.handle),
   ("gecho", fun args => match args with
     | [t] => (match CG.Driver.GraphCodec.decGraph? t with | some g => CG.Driver.GraphCodec.encGraph g | none => "bad-op")
     | _ => "bad-op")
